@@ -17,6 +17,7 @@ import (
 	"path/filepath"
 	"runtime"
 	"runtime/debug"
+	"runtime/pprof"
 	"sort"
 	"strconv"
 	"strings"
@@ -29,11 +30,11 @@ import (
 
 type opts struct {
 	prop, tier, audit, scratch, verif, repo, file, out string
-	seed                                                      uint64
-	workers, w                                                int
-	budget                                                    float64 // wall seconds for the exploration phase
-	maxCases                                                  int
-	noShrink                                                  bool
+	seed                                               uint64
+	workers, w                                         int
+	budget                                             float64 // wall seconds for the exploration phase
+	maxCases                                           int
+	noShrink                                           bool
 }
 
 func parse(args []string) *opts {
@@ -418,27 +419,27 @@ func runCtl(o *opts) {
 	}
 	wall := time.Since(t0).Seconds()
 	cov := map[string]any{
-		"evaluations":         cases,
-		"distinct_nontrivial": distinct,
-		"rule":                ch.Rule,
-		"samples":             samples,
-		"cases_planned":       n,
-		"stopped_by_budget":   timedOut,
-		"counters":            counters,
-		"simulated_ticks":     ticks,
-		"runs_per_hour":       int(float64(counters["runs"]+counters["parses"]) / (exploreWall + 0.001) * 3600),
-		"cases_per_hour":      int(float64(cases) / (exploreWall + 0.001) * 3600),
-		"workers":             nw,
-		"fault_kinds_fired":   faults,
-		"probes_at_zero":      probeWarn,
-		"map_range_sites":     ctx.Sites,
-		"distinct_schedules":  len(schedSet),
+		"evaluations":             cases,
+		"distinct_nontrivial":     distinct,
+		"rule":                    ch.Rule,
+		"samples":                 samples,
+		"cases_planned":           n,
+		"stopped_by_budget":       timedOut,
+		"counters":                counters,
+		"simulated_ticks":         ticks,
+		"runs_per_hour":           int(float64(counters["runs"]+counters["parses"]) / (exploreWall + 0.001) * 3600),
+		"cases_per_hour":          int(float64(cases) / (exploreWall + 0.001) * 3600),
+		"workers":                 nw,
+		"fault_kinds_fired":       faults,
+		"probes_at_zero":          probeWarn,
+		"map_range_sites":         ctx.Sites,
+		"distinct_schedules":      len(schedSet),
 		"distinct_schedules_rule": "distinct hashes of the complete map-iteration decision log (site, execution number, permutation) of a generator run",
-		"real_components":     orDefault(ch.Real, []string{"all yaccgo packages of the current tree (source-instrumented copy, in-process)", "uninstrumented yaccgo CLI built from the same tree (where the check uses it)"}),
-		"stub_components":     orDefault(ch.Stubs, []string{"map-iteration order shim (simrt.Order)", "tick clock", "stdout capture", "file-system effect log (pass-through to real files)"}),
-		"violation_groups":    len(order),
-		"slowest_case":        map[string]any{"index": slowIdx, "ms": slowMs},
-		"known_findings_hit":  len(knownLines),
+		"real_components":         orDefault(ch.Real, []string{"all yaccgo packages of the current tree (source-instrumented copy, in-process)", "uninstrumented yaccgo CLI built from the same tree (where the check uses it)"}),
+		"stub_components":         orDefault(ch.Stubs, []string{"map-iteration order shim (simrt.Order)", "tick clock", "stdout capture", "file-system effect log (pass-through to real files)"}),
+		"violation_groups":        len(order),
+		"slowest_case":            map[string]any{"index": slowIdx, "ms": slowMs},
+		"known_findings_hit":      len(knownLines),
 	}
 	ev := map[string]any{
 		"property_id": o.prop,
@@ -589,6 +590,11 @@ func main() {
 	case "hashes":
 		runHashes(o)
 	case "case":
+		if pf := os.Getenv("VERIF_CPUPROFILE"); pf != "" {
+			f, _ := os.Create(pf)
+			pprof.StartCPUProfile(f)
+			defer pprof.StopCPUProfile()
+		}
 		ctx := loadCtx(o)
 		ch := props.Registry[o.prop]
 		in := ch.Gen(ctx, o.w)
